@@ -529,6 +529,26 @@ def run(chk: Check):
     rule_combinators(chk)
     rule_lookahead_cover(chk, ir)
     rule_column_unit(chk)
+    # Tree equality with CPython rests on the token stream and on node well-formedness: the rule sets of C04 (ASDL shape,
+    # contexts, locations), C08 (token text/positions) and C09 (lexical agreement with CPython) are necessary conditions of
+    # C01 as well and are evaluated here under their own rule ids.
+    tr.feed(chk, {"S1-list-field": "S1-list-field", "S1-field-kind": "S1-field-kind", "S2-required": "S2-required",
+                  "S3-ctx": "S3-ctx", "S4-location": "S4-location", "S1-joinedstr-bytes": "S1-joinedstr-bytes"}, live_key)
+    from . import c08, c09
+    from .. import constfold
+    from ..pyflow import Index
+    ix = Index()
+    F = constfold.fold_tokenize()
+    c09.rule_k1(chk, F, False)
+    c09.rule_k2(chk, F)
+    c09.rule_k3(chk, F, ir, False)
+    c09.rule_k4(chk, F, ix)
+    c09.rule_k5(chk, F, ix)
+    c09.rule_k6(chk, F, ix, False)
+    c08.rule_l1(chk, ix)
+    c08.rule_l2(chk, ix)
+    c08.rule_l3(chk, ix)
+    c08.rule_l4(chk, ix)
     chk.floor("A10-lookahead-covers-first", 18)
     chk.floor("A5-loc-key", 300)
     chk.floor("A6-scalar-kind", 60)
@@ -763,7 +783,7 @@ def _first_of_items(items, fl_item, first, item_n):
     return out
 
 
-def rule_column_unit(chk: Check):
+def rule_column_unit(chk: Check, only_consistent: bool = False):
     """Every place that turns token coordinates into node columns must use the same unit.  (CPython counts UTF-8 bytes; this
     code base counts characters everywhere — a known finding — but mixing the two breaks adjacency and spans.)"""
     from ..pyflow import Index, own_nodes
@@ -780,6 +800,8 @@ def rule_column_unit(chk: Check):
     chk.count("A5-column-unit")
     chk.require(len(set(units.values())) == 1, "A5-column-unit", "consistent", repo.SUBHEADER,
                 f"node columns are produced in different units: {units}; adjacency tests and spans compare them with each other")
+    if only_consistent:
+        return
     chk.count("A5-column-unit")
     chk.require(set(units.values()) == {"bytes/converted"}, "A5-column-unit", "utf8-byte-offsets", repo.SUBHEADER,
                 "CPython's col_offset/end_col_offset are UTF-8 byte offsets; here they are character indices: every node after a "
